@@ -66,6 +66,13 @@ def run(ctx):
         else:
             opts["sri"] = ref.sri(algo, data)
             req = {"op": "index_insert", "cache": cache, "key": key, "opts": opts}
+        if req["op"] == "writer" and len(data) > 1 and rng.random() < 0.35:
+            # the data arrives in pieces, through write() calls or as one write_vectored gather list: the recorded size
+            # is the number of bytes written whichever way they came
+            cut = rng.randrange(1, len(data))
+            req["chunks"] = [ctx.data(data[:cut]), ctx.data(data[cut:])]
+            if rng.random() < 0.6:
+                req["vectored"] = True
         case = {"ep": ep, "mode": mode, "key": key, "data": data, "opts": opts, "algo": algo, "req": req,
                 "tclass": tclass, "mkind": mkind}
         if ep in ("writer_opts", "index_insert") and rng.random() < 0.3:
